@@ -4,8 +4,8 @@
 (*   {"e":"Intern","c":[letters],"obj":n}            intern(c) returned object number n             *)
 (*   {"e":"Str","i":h,"conv":[..],"stream":[..],"cat":[..],"rcat":[..],"empty":b}                  *)
 (*                                                   string(h), o << h, h + "b", "b" + h, h.empty() *)
-(*   {"e":"Cmp","i":h1,"j":h2,"op":"eq"|"ne"|"lt","res":b}          h1 op h2                        *)
-(*   {"e":"CmpStr","i":h,"s":[..],"op":"eq"|"ne"|"req"|"rne","res":b}  h op s, and (r..) s op h     *)
+(*   {"e":"Cmp","i":h1,"j":h2,"eq":b,"ne":b,"lt":b}        h1 == h2, h1 != h2, h1 < h2              *)
+(*   {"e":"CmpStr","i":h,"s":[..],"eq":b,"ne":b,"req":b,"rne":b}   h == s, h != s, s == h, s != h   *)
 (*   {"e":"Hash","i":h,"h":[w3,w2,w1,w0]}            hash_interned_string()(h) as four 16-bit words *)
 (*   {"e":"SetSize","n":k}                           size of an interned_string_set_type of all h   *)
 (* Handles are numbered by Intern call within the history.                                          *)
@@ -24,9 +24,6 @@ Ev == T[l]
 IsE(e) == Ev.e = e
 Known(i) == i \in Handles
 
-CmpExpected(op, a, b) == CASE op = "eq" -> a = b [] op = "ne" -> a # b [] op = "lt" -> StrLess(a, b)
-                           [] op = "req" -> a = b [] op = "rne" -> a # b
-
 VStr == IF ~Known(Ev.i) THEN "bad:unknown-handle"
         ELSE IF Ev.conv # Content(Ev.i) THEN "bad:conversion-to-string-differs-from-content"
         ELSE IF Ev.stream # Content(Ev.i) THEN "bad:streamed-text-differs-from-content"
@@ -34,13 +31,14 @@ VStr == IF ~Known(Ev.i) THEN "bad:unknown-handle"
         ELSE IF Ev.empty # (Content(Ev.i) = <<>>) THEN "bad:empty-differs-from-content"
         ELSE "ok"
 VCmp == IF ~Known(Ev.i) \/ ~Known(Ev.j) THEN "bad:unknown-handle"
-        ELSE IF Ev.op \notin {"eq", "ne", "lt"} THEN "bad:unknown-operator"
-        ELSE IF Ev.res = CmpExpected(Ev.op, Content(Ev.i), Content(Ev.j)) THEN "ok"
-        ELSE "bad:comparison-differs-from-contents"
+        ELSE IF Ev.eq # (Content(Ev.i) = Content(Ev.j)) THEN "bad:equality-differs-from-contents"
+        ELSE IF Ev.ne # (Content(Ev.i) # Content(Ev.j)) THEN "bad:inequality-differs-from-contents"
+        ELSE IF Ev.lt # StrLess(Content(Ev.i), Content(Ev.j)) THEN "bad:order-differs-from-contents"
+        ELSE "ok"
 VCmpStr == IF ~Known(Ev.i) THEN "bad:unknown-handle"
-           ELSE IF Ev.op \notin {"eq", "ne", "req", "rne"} THEN "bad:unknown-operator"
-           ELSE IF Ev.res = CmpExpected(Ev.op, Content(Ev.i), Ev.s) THEN "ok"
-           ELSE "bad:mixed-comparison-differs-from-contents"
+           ELSE IF Ev.eq # (Content(Ev.i) = Ev.s) \/ Ev.req # (Content(Ev.i) = Ev.s) THEN "bad:mixed-equality-differs-from-contents"
+           ELSE IF Ev.ne # (Content(Ev.i) # Ev.s) \/ Ev.rne # (Content(Ev.i) # Ev.s) THEN "bad:mixed-inequality-differs-from-contents"
+           ELSE "ok"
 VHash == IF ~Known(Ev.i) THEN "bad:unknown-handle"
          ELSE IF Content(Ev.i) \in DOMAIN hashOf /\ hashOf[Content(Ev.i)] # Ev.h THEN "bad:equal-contents-hash-differently"
          ELSE "ok"
